@@ -343,12 +343,27 @@ func litUint(e ast.Expr) (uint64, bool) {
 // parseLoopFacts reads the generated parse loop: the `switch typ` case labels are the type
 // numbers the model recognises at its own level; `typ != N` comparisons are the value types
 // of map fields; the ordered variant wraps the switch in `for handled := false; …; progress++`.
+// mentionsTyp: the switch is over the element type, however the tag is spelled (typ, uint32(typ), ...).
+func mentionsTyp(e ast.Expr) bool {
+	found := false
+	if e == nil {
+		return false
+	}
+	ast.Inspect(e, func(n ast.Node) bool {
+		if id, ok := n.(*ast.Ident); ok && id.Name == "typ" {
+			found = true
+		}
+		return !found
+	})
+	return found
+}
+
 func parseLoopFacts(fn *ast.FuncDecl) (types, mapVals []uint64, ordered bool) {
 	seen := map[uint64]bool{}
 	ast.Inspect(fn.Body, func(n ast.Node) bool {
 		switch n := n.(type) {
 		case *ast.SwitchStmt:
-			if id, ok := n.Tag.(*ast.Ident); ok && id.Name == "typ" {
+			if mentionsTyp(n.Tag) {
 				for _, c := range n.Body.List {
 					for _, e := range c.(*ast.CaseClause).List {
 						if v, ok := litUint(e); ok && !seen[v] {
